@@ -429,7 +429,9 @@ def o_markers(ctx):
                         for kind in ("footnote", "endnote"):
                             refs = [x.get(f"{{{w}}}id") for x in p.elem.iter(f"{{{w}}}{kind}Reference")
                                     if not any(local(a) == "hyperlink" for a in ancestors(x))]
-                            marks = [r for r in runs if re.fullmatch(rf"----{kind}.*----", r)]
+                            # ids are integers (generated and corpus); literal text that merely looks like a
+                            # marker (the generator's alphabet has "----" and "footnote1)") is not one
+                            marks = [r for r in runs if re.fullmatch(rf"----{kind}-?\d+----", r)]
                             if marks != [f"----{kind}{i}----" for i in refs]:
                                 out.append(("note_markers", f"{f.path}: {kind} references {refs} rendered as {marks}"))
                                 return out
